@@ -8,7 +8,7 @@ From GA.Gen Require Import Subst.
 From GA.Spec Require Import Local EDNAFULL.
 From GA.Spec Require LocalEnum.
 From GA.Model Require Import SW.
-From GA.Proofs Require Import SWProofs SubstProofs EnumProofs.
+From GA.Proofs Require Import SWProofs SubstProofs EnumProofs GotohProofs.
 Local Open Scope Z_scope.
 
 (* The validity checker evaluated (in the kernel) on every alignment returned by
@@ -118,10 +118,20 @@ Theorem C09_enumeration_dominates_every_valid_alignment :
 Proof. exact best_enum_dominates. Qed.
 Print Assumptions C09_enumeration_dominates_every_valid_alignment.
 
-Definition C09_gotoh_is_optimal_statement : Prop :=
+(* The Gotoh oracle is an upper bound of EVERY valid local alignment of ANY two sequences, for every
+   substitution function and gap costs open <= extend < 0 (unbounded; by induction over the rows of the
+   three-matrix table, each cell dominating every alignment that ends there with a pair, a gap in row 2
+   or a gap in row 1).  A score reported by the implementation above the oracle is therefore impossible for
+   a valid alignment, and "reported score = oracle" on a case means the reported alignment is optimal. *)
+Theorem C09_gotoh_is_optimal :
   forall (sub : byte -> byte -> Z) opn ext s1 s2 r1 r2 st1 st2 en1 en2,
   opn <= ext -> ext < 0 -> valid_alignment s1 s2 r1 r2 st1 st2 en1 en2 ->
   score_cols sub opn ext r1 r2 0 <= gotoh_best sub opn ext s1 s2.
+Proof.
+  intros sub opn ext s1 s2 r1 r2 st1 st2 en1 en2 H1 H2 H3.
+  exact (gotoh_dominates sub opn ext H1 H2 s1 s2 r1 r2 st1 st2 en1 en2 H3).
+Qed.
+Print Assumptions C09_gotoh_is_optimal.
 
 Definition C09_aligner_statement : Prop :=
   forall sc s1 s2 r,
